@@ -86,6 +86,14 @@ Changes ==
       t \in {1, 2}, d \in BOOLEAN, i \in 1..MaxAt, w \in {"write", "touch", "delete"},
       n \in {"p.dat", "d/q.dat"}, sz \in {20, 41} }
 
+\* ---- a source file is rewritten with a smaller or a larger size at every call (a staged body of the old
+\* size meets an announcement of the new one: C01 "never a mixture")
+ResizeOf(n, sizes) ==
+  { [Base(t, 16, 8, "fifo", d, FALSE, Files2) EXCEPT
+        !.steps = << [at |-> i, op |-> "write", file |-> F(n, sz, 2, 50, "")] >>, !.settle = 1200] :
+      t \in {1, 2}, d \in BOOLEAN, i \in 1..MaxAt, sz \in sizes }
+Resize == ResizeOf("p.dat", {9, 41}) \cup ResizeOf("d/q.dat", {20, 41})
+
 \* ---- the same, placed at the k-th call of one kind (before the call takes effect), with a poll
 \* delay shorter or longer than the scan delay: the windows scan / send / log / poll / release
 CallKinds == {"scan", "add", "persist", "push", "pop", "transmit", "sent", "validate", "done"}
@@ -124,6 +132,7 @@ Scenarios ==
     [] Family = "recover" -> Recover
     [] Family = "changes" -> Changes
     [] Family = "changes2" -> Changes2
+    [] Family = "resize" -> Resize
     [] Family = "changes3" -> Changes3
     [] Family = "elig" -> Elig
 
